@@ -12,8 +12,9 @@ trap 'rm -rf "$T"' EXIT
 cp specs/*.tla "$T"/ 2>/dev/null || true
 for f in "$T"/*.tla; do
   m=$(basename "$f" .tla)
-  (cd "$T" && java -cp /opt/veriftools/tla/tla2tools.jar:/opt/veriftools/tla/CommunityModules-deps.jar tla2sany.SANY "$m.tla" >"$T/$m.sany" 2>&1) || { cat "$T/$m.sany"; echo "SANY failed for $m"; exit 1; }
-  if grep -q "Semantic errors\|Parsing or semantic analysis failed\|Could not find module" "$T/$m.sany"; then cat "$T/$m.sany"; echo "SANY failed for $m"; exit 1; fi
+  # a module that does not parse is reported but not fatal here: the check that uses it exits 2 with the parser's message
+  (cd "$T" && timeout 120 java -cp /opt/veriftools/tla/tla2tools.jar:/opt/veriftools/tla/CommunityModules-deps.jar tla2sany.SANY "$m.tla" >"$T/$m.sany" 2>&1) || echo "WARNING: SANY failed for $m"
+  if grep -q "Semantic errors\|Parsing or semantic analysis failed\|Could not find module" "$T/$m.sany"; then echo "WARNING: SANY reports errors for $m"; fi
 done
 # warm the build cache (errors here are not fatal: every check rebuilds and reports on its own)
 (cd /repo && GOFLAGS=-mod=mod GOPROXY=off GOTOOLCHAIN=local "$GO" build -tags default_build ./... >/dev/null 2>&1) || true
